@@ -29,7 +29,7 @@
 #include "varintBitstream.h"
 
 #define NIN 6           /* shared input arrays */
-#define NEXTRA_OPS 11
+#define NEXTRA_OPS 12
 #define NOPS (NCODECS + NEXTRA_OPS)
 #define MAXT 16
 #define INLEN 700
@@ -51,6 +51,10 @@ static void *ro_alloc(size_t bytes, size_t misalign) {
     ARENA_USED = at + bytes;
     return ARENA + at;
 }
+static uint64_t *BIG2;            /* > 10000 elements, every 10th equal, the others varied */
+static uint8_t *ELIAS[NIN][2];    /* shared Elias gamma / delta streams of IN[in][2] ... */
+static size_t ELIAS_CUT[NIN][2];  /* ... and a bit count that ends inside the payload of one of their codes */
+static size_t ELIAS_FULL[NIN][2];
 static uint32_t *U32[NIN][2]; /* shared 32-bit inputs (any / non-decreasing), start address = 0, 4, 8, 12 mod 16 by input slot */
 static uint64_t *BIG;
 static uint64_t *HUGE_IN[3];
@@ -189,11 +193,27 @@ static uint64_t run_op(int op, int in, uint8_t *scratch, uint64_t *outbuf) {
     }
     case 8: { /* adaptive analysis of the shared > 10000-element input (sampled uniqueness) */
         varintAdaptiveDataStats st;
-        varintAdaptiveAnalyze(BIG, BIGN - (size_t)in, &st);
+        const uint64_t *big = (in & 1) ? BIG2 : BIG;
+        varintAdaptiveAnalyze(big, BIGN - (size_t)in, &st);
         digest_u64(&d, st.uniqueCount);
         digest_u64(&d, st.minValue ^ st.maxValue ^ st.avgDelta);
         digest_u64(&d, (uint64_t)varintAdaptiveSelectEncoding(&st));
-        digest_u64(&d, varintAdaptiveCountUnique(BIG, BIGN - 7 * (size_t)in));
+        digest_u64(&d, varintAdaptiveCountUnique(big, BIGN - 7 * (size_t)in));
+        digest_u64(&d, varintAdaptiveCountUnique(big, BIGN - 10 * (size_t)in));
+        break;
+    }
+    case 11: { /* Elias streams whose declared bit count ends inside a code's payload (a refused read), next to valid ones */
+        for (int dl = 0; dl < 2 && ELIAS[in][0]; dl++) {
+            size_t got = dl ? varintEliasDeltaDecodeArray(ELIAS[in][dl], ELIAS_CUT[in][dl], outbuf, n) : varintEliasGammaDecodeArray(ELIAS[in][dl], ELIAS_CUT[in][dl], outbuf, n);
+            digest_u64(&d, got);
+            digest_bytes(&d, outbuf, got * 8);
+            size_t all = dl ? varintEliasDeltaDecodeArray(ELIAS[in][dl], ELIAS_FULL[in][dl], outbuf, n) : varintEliasGammaDecodeArray(ELIAS[in][dl], ELIAS_FULL[in][dl], outbuf, n);
+            digest_u64(&d, all);
+            digest_bytes(&d, outbuf, all * 8);
+            varintBitReader br;
+            varintBitReaderInit(&br, ELIAS[in][dl], ELIAS_CUT[in][dl]);
+            for (int k = 0; k < 40 && varintBitReaderHasMore(&br, 1); k++) digest_u64(&d, dl ? varintEliasDeltaDecode(&br) : varintEliasGammaDecode(&br));
+        }
         break;
     }
     case 9:
@@ -380,10 +400,35 @@ int main(int argc, char **argv) {
     memcpy(HUGE_IN[1], HUGE_IN[0], HUGEN * 8);
     qsort(HUGE_IN[1], HUGEN, 8, cmp_u64);
     for (size_t k = 0; k < HUGEN; k++) HUGE_IN[2][k] = HUGE_IN[0][k] ? HUGE_IN[0][k] : 1;
+    BIG2 = ro_alloc(BIGN * 8, 0);
+    for (size_t k = 0; k < BIGN; k++) BIG2[k] = (k % 10 == 0) ? 777 : (rng_next(&r) % 3000) * 31 + 11;
+    for (int i = 0; i < NIN && strcmp(g_mode, "c17cold"); i++) { /* (not in cold-start processes: building the streams calls the library) */
+        for (int dl = 0; dl < 2; dl++) {
+            uint8_t *tmp = malloc(INLEN * 20 + 64);
+            varintEliasMeta em;
+            size_t nbytes = dl ? varintEliasDeltaEncodeArray(tmp, IN[i][2], INN[i], &em) : varintEliasGammaEncodeArray(tmp, IN[i][2], INN[i], &em);
+            ELIAS[i][dl] = ro_alloc(nbytes + 8, (size_t)i);
+            memcpy(ELIAS[i][dl], tmp, nbytes);
+            free(tmp);
+            ELIAS_FULL[i][dl] = em.totalBits;
+            /* cut inside the payload of the first code (past a third of the stream) whose value is >= 4 */
+            size_t pos = 0, cut = em.totalBits / 2;
+            for (size_t k = 0; k < INN[i]; k++) {
+                uint64_t v = IN[i][2][k];
+                size_t cb = dl ? varintEliasDeltaBits(v) : varintEliasGammaBits(v);
+                if (k > INN[i] / 3 && v >= 4) {
+                    cut = pos + cb - 1; /* all but the last payload bit */
+                    break;
+                }
+                pos += cb;
+            }
+            ELIAS_CUT[i][dl] = cut;
+        }
+    }
     BIG = ro_alloc(BIGN * 8, 8);
     for (size_t k = 0; k < BIGN; k++) BIG[k] = (rng_next(&r) % 5000) * 977 + 5; /* many distinct values: the sampled estimate depends on which elements are sampled */
     for (int op = 0; op < (int)NOPS; op++) {
-        static const char *const en[NEXTRA_OPS] = {"scalar.tagged+external", "scalar.chained", "scalar.split-macros", "scalar.inplace-add", "float", "dict.shared-const", "packed.private", "bitstream.private", "adaptive.analysis-over-10000", "bp128.32.shared-input", "bp128.delta32.shared-input"};
+        static const char *const en[NEXTRA_OPS] = {"scalar.tagged+external", "scalar.chained", "scalar.split-macros", "scalar.inplace-add", "float", "dict.shared-const", "packed.private", "bitstream.private", "adaptive.analysis-over-10000", "bp128.32.shared-input", "bp128.delta32.shared-input", "elias.cut-inside-payload"};
         OPNAME[op] = op < (int)NCODECS ? CODECS[op].name : en[op - (int)NCODECS];
     }
     if (mprotect(ARENA, ARENA_BYTES, PROT_READ) != 0) {
